@@ -38,6 +38,22 @@ _Domain = Union[Container[A], Callable[[A], bool]]
 Domain = Evaluatable[_Domain]
 
 
+def _templated_keys(value: JSON, options: Options, explain: bool = False) -> Set[str]:
+    """Keys referenced by templates anywhere inside a (possibly nested) option value."""
+    if isinstance(value, str):
+        template = Template(value)
+        return template.explain(options) if explain else template.keys(options)
+    if isinstance(value, Mapping):
+        return set().union(
+            *(_templated_keys(item, options, explain) for item in value.values())
+        )
+    if isinstance(value, list):
+        return set().union(
+            *(_templated_keys(item, options, explain) for item in value)
+        )
+    return set()
+
+
 def _key_exists(key: str, options: Options) -> bool:
     try:
         return dotted_key_exists(key, options)
@@ -206,10 +222,7 @@ class Option(Evaluatable[A]):
         keys: Set[str]
         if _key_exists(self.key, options):
             value = get_dotted_key(self.key, options)
-            if isinstance(value, str):
-                keys = {self.key} | Template(value).keys(options)
-            else:
-                keys = {self.key}
+            keys = {self.key} | _templated_keys(value, options)
         elif self.default is not MISSING:
             keys = self.default.keys(options)
         else:
@@ -225,10 +238,7 @@ class Option(Evaluatable[A]):
         keys: Set[str]
         if _key_exists(self.key, options):
             value = get_dotted_key(self.key, options)
-            if isinstance(value, str):
-                keys = {self.key} | Template(value).explain(options)
-            else:
-                keys = {self.key}
+            keys = {self.key} | _templated_keys(value, options, explain=True)
         elif self.default is not MISSING:
             keys = self.default.explain(options)
         else:
